@@ -333,7 +333,8 @@ def pipeline_body(ctx: Ctx, p: dict) -> None:
             spy = drive.DeepSpy()
             try:
                 with spy:
-                    lo, ro = drive.run_checked(machine, l, r, copy.deepcopy(checked))
+                    # the caller keeps the checked configuration and hands the SAME object to every run
+                    lo, ro = drive.run_checked(machine, l, r, checked)
             except (MachineError, KeyError, AttributeError) as exc:
                 ctx.violation("C01/accepted-pipeline-fails-at-run", f"{tag}: {type(exc).__name__}: {str(exc)[:120]}")
                 break
